@@ -420,6 +420,7 @@ func c17lookups(c *core.Ctx, rng *core.Rng) {
 	for i, kt := range kts {
 		fmt.Fprintf(&body, "list l%d { key k; leaf k { type %s; } leaf d { type string; } }\n", i, kt.yang)
 	}
+	body.WriteString("list lc { key \"a b\"; leaf a { type string; } leaf b { type int32; } leaf d { type string; } }\n")
 	m, err := parser.LoadModuleFromString(nil, fmt.Sprintf(c17module, body.String()))
 	if err != nil {
 		c.Violation(core.Replay{Kind: "harness", Summary: "cannot load C17 lookup module: " + err.Error(), NoInputFound: true})
@@ -491,6 +492,53 @@ func c17lookups(c *core.Ctx, rng *core.Rng) {
 					}
 					lines = append(lines, fmt.Sprintf("c17 find %s %s %s", recv, u, strings.Join(urls, " ")))
 					pends = append(pends, pend{fmt.Sprintf("%s keys=%v lookup=%s", recv, urls, u), strings.TrimPrefix(got, "d")})
+				}
+			}
+		}
+	}
+	// compound keys (string, int32): components shared between entries
+	for it := 0; it < c.N(150, 6000); it++ {
+		as := []string{"alpha", "beta", "gamma", "a"}
+		bs := []int32{80, 81, -1, 0, 443}
+		seen := map[string]bool{}
+		var entries []interface{}
+		var keys []string
+		cnt := 1 + rng.Intn(7)
+		for i := 0; i < cnt; i++ {
+			a, b := core.Pick(rng, as), core.Pick(rng, bs)
+			k := fmt.Sprintf("%s,%d", a, b)
+			if seen[k] {
+				continue
+			}
+			seen[k] = true
+			keys = append(keys, k)
+			entries = append(entries, map[string]interface{}{"a": a, "b": b, "d": "d" + k})
+		}
+		for _, backend := range []string{"reflect-slice", "node-slice"} {
+			data := map[string]interface{}{"lc": append([]interface{}{}, entries...)}
+			var root node.Node
+			if backend == "reflect-slice" {
+				root = nodeutil.ReflectChild(data)
+			} else {
+				root = &nodeutil.Node{Object: data}
+			}
+			b := node.NewBrowser(m, root)
+			for _, a := range as {
+				for _, bv := range bs {
+					k := fmt.Sprintf("%s,%d", a, bv)
+					c.Evaluations++
+					c.Count("lookup_backend", backend+"-compound")
+					got := c17find(b, "lc", k)
+					want := "none"
+					if seen[k] {
+						want = "d" + k
+					}
+					c.Distinct(fmt.Sprint("lookupc", backend, keys, k))
+					if got != want {
+						c.Violation(core.Replay{Kind: "property-failure", Class: "lookup-compound-" + backend,
+							Summary: fmt.Sprintf("%s list keyed by (string,int32) with keys %v: Find(lc=%s) gave %s, want %s", backend, keys, k, got, want),
+							Input:   map[string]interface{}{"backend": backend, "keys": keys, "lookup": k}, Impl: got, Spec: want})
+					}
 				}
 			}
 		}
